@@ -376,7 +376,7 @@ func (r *run) emit(ev string, c *knode, extra tr.M) {
 	m := tr.M{"ev": ev, "w": r.sc.Id, "clk": r.clk}
 	if c != nil {
 		// the line describes a state at rest: nothing of the ceremony's own goroutines is at work while it is taken
-		for deadline := time.Now().Add(120 * time.Second); busyGoroutines() > 0; {
+		for deadline := time.Now().Add(120 * time.Second); busyGoroutines(false) > 0; {
 			if time.Now().After(deadline) {
 				fatal("node k%d: the ceremony's goroutines did not come to rest", c.key)
 			}
@@ -557,7 +557,7 @@ func (r *run) bulk(c *knode) {
 		recs = append(recs, m.rec())
 		codes = append(codes, "?")
 	}
-	deadline := time.Now().Add(60 * time.Second)
+	deadline := time.Now().Add(bulkPatience)
 	for {
 		snap := c.kp.VerifSnapshot()
 		n := 0
@@ -571,7 +571,14 @@ func (r *run) bulk(c *knode) {
 				n++
 			}
 		}
-		if n >= len(ms) || time.Now().After(deadline) {
+		if n >= len(ms) {
+			break
+		}
+		if time.Now().After(deadline) {
+			// the reader goroutines have had their time: the line shows what they made of the queue; later bulk steps of this
+			// process do not wait that long again
+			bulkPatience = 2 * time.Second
+			r.stats["bulk-timeout"]++
 			break
 		}
 		time.Sleep(200 * time.Microsecond)
@@ -739,5 +746,7 @@ func runScenario(b *base, out *tr.W, sc *scenario, stats map[string]int) {
 		c.close()
 	}
 }
+
+var bulkPatience = 60 * time.Second
 
 var _ = ecdsa.PrivateKey{}
